@@ -93,6 +93,7 @@ func runC13(c *Config, r *Report) {
 	c13Std(c, ic, r, stdlibPk, tablesByRelease[22], ovMap, restricted)
 	checkBinPkgOwnership(ic, r, "R13.6")
 	c13UseReapplies(ic, r)
+	c13R8(ic, r)
 }
 
 // R13.1: tables of package stdlib.
@@ -1041,6 +1042,42 @@ func c13EnvInit(ic *IC, r *Report) {
 		return
 	}
 	r.Check(bad == "", "R13.4", "New/env-init", ic.pos(fi.Decl.Pos()), "the env map is filled from Options.Env only, in restricted mode", "New: "+bad+": the virtual environment is seeded with host values")
+	// "key=value" entries are cut at the FIRST '=' (as os/exec and syscall do): the loop over
+	// Options.Env uses SplitN(e, "=", 2), Cut, Index or IndexByte, never a Last* search or an
+	// unbounded Split (round-5 seed: A=b=c became A=b -> c)
+	first, last := "", ""
+	ast.Inspect(fi.Decl.Body, func(n ast.Node) bool {
+		rs, ok := n.(*ast.RangeStmt)
+		if !ok {
+			return true
+		}
+		if v := selField(ic.Info, rs.X); v == nil || v.Name() != "Env" {
+			return true
+		}
+		for _, c := range allCalls(rs.Body) {
+			f, ok := calleeOf(ic.Info, c).(*types.Func)
+			if !ok || f.Pkg() == nil || f.Pkg().Path() != "strings" {
+				continue
+			}
+			switch f.Name() {
+			case "SplitN":
+				if len(c.Args) == 3 {
+					if tv, ok := ic.Info.Types[c.Args[2]]; ok && tv.Value != nil && tv.Value.ExactString() == "2" {
+						first = "strings.SplitN(_, _, 2)"
+					} else {
+						last = "strings.SplitN with a limit other than 2 at " + ic.pos(c.Pos())
+					}
+				}
+			case "Cut", "Index", "IndexByte", "IndexRune":
+				first = "strings." + f.Name()
+			case "LastIndex", "LastIndexByte", "Split", "SplitAfter", "Fields":
+				last = "strings." + f.Name() + " at " + ic.pos(c.Pos())
+			}
+		}
+		return true
+	})
+	r.Check(first != "" && last == "", "R13.4", "New/env-entries-cut-at-the-first-separator", ic.pos(fi.Decl.Pos()), "entries of Options.Env are cut at the first '=' ("+first+")",
+		"New splits the entries of Options.Env with "+last+first+" instead of cutting them at the first '=': for A=b=c the script sees the variable A=b (value c) or loses part of the value, so the virtual environment is not the one given in Options.Env")
 }
 
 var _ = constant.MakeBool
@@ -1107,4 +1144,105 @@ func c13UseReapplies(ic *IC, r *Report) {
 		r.Check(len(bad) == 0, "R13.7", fmt.Sprintf("Interpreter.Use/fixStdlib-call#%d/depends-on-the-argument-only", i+1), ic.pos(c.Pos()), "the re-application of the per-interpreter overrides depends on the Exports argument only",
 			"(*Interpreter).Use re-applies fixStdlib only under "+strings.Join(bad, " and ")+", a condition on the interpreter's own state: a second Use of the standard library copies the raw fmt/log/os symbols over the virtualised ones and then skips the re-application, so the script reaches the host's streams, arguments, environment and the real os.Exit")
 	}
+}
+
+func init() {
+	ruleText["R13.8"] = "in the import case of the global pass, an import that resolves neither to a bound package nor to a source package always ends in an error: the pass's error is assigned a non-nil error in that branch and nothing clears it - in restricted mode unsafe, syscall and os/exec are not bound, so every import form of them is rejected"
+}
+
+// c13R8: round-5 seed accepted blank imports of "standard library" paths without binding.
+func c13R8(ic *IC, r *Report) {
+	info := ic.Info
+	fi := ic.fn(r, "Interpreter.gta")
+	if fi == nil {
+		return
+	}
+	spec, _ := ic.Pk.Types.Scope().Lookup("importSpec").(*types.Const)
+	var clause *ast.CaseClause
+	ast.Inspect(fi.Decl.Body, func(m ast.Node) bool {
+		if cc, ok := m.(*ast.CaseClause); ok {
+			for _, l := range cc.List {
+				if id := identOf(l); id != nil && spec != nil && info.ObjectOf(id) == spec {
+					clause = cc
+				}
+			}
+		}
+		return true
+	})
+	if clause == nil {
+		r.Errorf("R13.8: the importSpec case of gta was not found")
+		return
+	}
+	// the chain: if binPkg ... else if importSrc(...) == nil ... else { err = ... }
+	var chain *ast.IfStmt
+	for _, s := range clause.Body {
+		if ifs, ok := s.(*ast.IfStmt); ok && len(callsIn(info, ifs, true, "interp.Interpreter.importSrc")) > 0 {
+			chain = ifs
+		}
+	}
+	if chain == nil {
+		r.Errorf("R13.8: the if chain of the importSpec case calling importSrc was not found")
+		return
+	}
+	var clears []string
+	ast.Inspect(chain, func(m ast.Node) bool {
+		as, ok := m.(*ast.AssignStmt)
+		if !ok || len(as.Lhs) != len(as.Rhs) {
+			return true
+		}
+		for i, l := range as.Lhs {
+			if t := info.TypeOf(l); t != nil && types.TypeString(t, nil) == "error" {
+				if id := identOf(as.Rhs[i]); id != nil && id.Name == "nil" {
+					clears = append(clears, ic.pos(as.Pos()))
+				}
+			}
+		}
+		return true
+	})
+	// every branch that is reached after importSrc failed (the else branches following the
+	// condition calling importSrc) assigns an error built by a call
+	okElse := true
+	where := chain.Pos()
+	var walk func(ifs *ast.IfStmt, after bool)
+	walk = func(ifs *ast.IfStmt, after bool) {
+		callsHere := len(callsIn(info, ifs.Cond, true, "interp.Interpreter.importSrc")) > 0
+		if ifs.Init != nil && len(callsIn(info, ifs.Init, true, "interp.Interpreter.importSrc")) > 0 {
+			callsHere = true
+		}
+		if after {
+			// a branch taken when the source import failed: accepting it needs a reviewed reason
+			okElse = false
+			where = ifs.Pos()
+		}
+		switch e := ifs.Else.(type) {
+		case *ast.IfStmt:
+			walk(e, after || callsHere)
+		case *ast.BlockStmt:
+			if after || callsHere {
+				assigns := false
+				for _, s := range e.List {
+					if as, ok := s.(*ast.AssignStmt); ok && len(as.Rhs) == 1 {
+						if _, isCall := unparen(as.Rhs[0]).(*ast.CallExpr); isCall {
+							for _, l := range as.Lhs {
+								if t := info.TypeOf(l); t != nil && types.TypeString(t, nil) == "error" {
+									assigns = true
+								}
+							}
+						}
+					}
+				}
+				if !assigns {
+					okElse = false
+					where = e.Pos()
+				}
+			}
+		case nil:
+			if after || callsHere {
+				okElse = false
+			}
+		}
+	}
+	walk(chain, false)
+	r.Check(len(clears) == 0 && okElse, "R13.8", "gta/import-of-an-unbound-package-is-an-error", ic.pos(where), "a failed import always ends in an error",
+		"the importSpec case of gta does not turn every failed import into an error (error cleared at "+strings.Join(clears, ", ")+"; a branch after the failed source import accepts the statement): in restricted mode import _ \"unsafe\", import _ \"syscall\" or import _ \"os/exec\" is accepted instead of rejected")
 }
